@@ -381,7 +381,12 @@ func (x *vc) selField(env *cenv, base Val, name string, e *cexpr) Val {
 					return Val{T: x.loadLV(env.st, &lv), Typ: st.Field(i).Type()}
 				}
 				an, as, ft := x.fieldArr(env.st, pt.Elem(), i)
-				return Val{T: app("select", x.heapArr(env.st, an, as), base.T), Typ: ft}
+				rd := app("select", x.heapArr(env.st, an, as), base.T)
+				if len(env.bound) == 0 {
+					// values stored in a typed heap location satisfy their type's representation invariant
+					x.assume("true", x.typeInv(rd, ft, nil))
+				}
+				return Val{T: rd, Typ: ft}
 			}
 		}
 		x.cfail("no field %s in %v", name, pt.Elem())
@@ -429,7 +434,7 @@ func (x *vc) eqVals(env *cenv, a, b Val, e *cexpr) string {
 	if a.Nil {
 		switch x.srt.sortOf(b.Typ) {
 		case sIface:
-			return eq(app("itag", b.T), "0")
+			return eq(b.T, "(mkiface 0 0)")
 		case sSlice:
 			return eq(app("sl_arr", b.T), "0")
 		default:
@@ -529,6 +534,10 @@ func (x *vc) evalCall(env *cenv, e *cexpr) Val {
 			return Val{T: "true", Typ: boolT}
 		}
 		return Val{T: app(">=", ref, env.old.nextRef), Typ: boolT}
+	case "same": // exact representation equality (same bytes, offset and length for strings)
+		a := x.eval(env, e.args[0])
+		b := x.eval(env, e.args[1])
+		return Val{T: eq(a.T, b.T), Typ: boolT}
 	case "streq":
 		a := x.eval(env, e.args[0])
 		b := x.eval(env, e.args[1])
@@ -755,7 +764,12 @@ func (x *vc) constExpr(st *state, e ast.Expr, info *types.Info, t types.Type) (s
 		}
 		// backing arrays of immutable tables live at negative refs and are not part of the mutable heap
 		name, srt := x.elemArr(st, ut.Elem())
-		ref := smtInt(-int64(len(x.decls)) - 1000)
+		// table backing arrays get fixed refs in the reserved range (500, maxGlobals): valid, pre-existing objects
+		x.nTable++
+		if x.nTable >= 450 {
+			return "", false
+		}
+		ref := smtInt(int64(500 + x.nTable))
 		x.assume("true", eq(app("select", x.heap0[name], ref), content))
 		x.tableRefs = append(x.tableRefs, tableRef{name, ref, content})
 		_ = srt
